@@ -18,7 +18,6 @@ import (
 	"errors"
 	"fmt"
 	"strconv"
-	"strings"
 	"time"
 
 	"github.com/cybergarage/go-redis/redis/glob"
@@ -158,7 +157,7 @@ func nextSetOptionArguments(cmd string, args Arguments) (SetOption, error) {
 				return opt, err
 			}
 		}
-		argStr = strings.ToUpper(argStr)
+		argStr = upperASCII(argStr)
 		switch argStr {
 		case "NX":
 			if opt.NX || opt.XX {
@@ -294,7 +293,7 @@ func nextRangeOptionArguments(cmd string, args Arguments) (ZRangeOption, error) 
 
 	param, err := args.NextString()
 	for err == nil {
-		switch strings.ToUpper(param) {
+		switch upperASCII(param) {
 		case "BYSCORE":
 			opt.BYSCORE = true
 		case "BYLEX":
@@ -335,7 +334,7 @@ func nextExpireArgument(cmd string, ttl time.Time, args Arguments) (ExpireOption
 	var err error
 	arg, err := args.NextString()
 	if err == nil {
-		switch strings.ToUpper(arg) {
+		switch upperASCII(arg) {
 		case "NX":
 			opt.NX = true
 		case "XX":
@@ -365,7 +364,7 @@ func nextScanArgument(cmd string, args Arguments) (ScanOption, error) {
 	var err error
 	param, err := args.NextString()
 	for err == nil {
-		switch strings.ToUpper(param) {
+		switch upperASCII(param) {
 		case "MATCH":
 			var pattern string
 			pattern, err = nextStringArgument(cmd, "pattern", args)
